@@ -83,6 +83,14 @@ pub struct Net {
     pub partitions: Vec<(u32, u32)>,
     /// directed holds (from, to): bytes written by `from` towards `to` stay queued (FIFO kept) until released
     pub holds: Vec<(u32, u32)>,
+    /// TCP is a byte stream: with this probability (per 256) a write of two or more bytes reaches the reader as two
+    /// segments, the second one up to `segment_gap` ns later (what a reader sees when a message does not fit one
+    /// packet or the sender's buffer drains in pieces); only on links between `segment_scope` endpoints
+    pub segment_p: u32,
+    pub segment_gap: u64,
+    /// 0 = every connection, 1 = connections between two nodes only
+    pub segment_scope: u8,
+    pub segments_split: u64,
     pub line_log: Option<Vec<LineRecord>>,
     pub line_seq: u64,
     /// number of node-to-node lines ever written (cheap activity counter)
@@ -105,6 +113,10 @@ impl Net {
             link_latency: BTreeMap::new(),
             partitions: Vec::new(),
             holds: Vec::new(),
+            segment_p: 0,
+            segment_gap: 2_000_000,
+            segment_scope: 0,
+            segments_split: 0,
             line_log: None,
             line_seq: 0,
             inter_node_lines: 0,
@@ -238,11 +250,25 @@ impl Net {
             0
         };
         let inter = from.is_some() && to.is_some() && from != to;
+        let (seg_p, seg_gap, seg_scope) = (self.segment_p, self.segment_gap, self.segment_scope);
+        let mut split = false;
         let pipe = &mut self.pipes[tx];
         let at = (now + lat).max(pipe.last_at);
         pipe.last_at = at;
         pipe.total_bytes += data.len() as u64;
-        pipe.chunks.push_back(Chunk { at, data: data.to_vec(), pos: 0 });
+        let in_scope = seg_scope == 0 || inter;
+        if seg_p > 0 && in_scope && data.len() >= 2 && (rng.below(256) as u32) < seg_p {
+            // the cut falls anywhere, also inside a multi-byte character or right before the line feed
+            let cut = 1 + rng.below(data.len() as u64 - 1) as usize;
+            let gap = 1 + rng.below(seg_gap.max(1));
+            pipe.chunks.push_back(Chunk { at, data: data[..cut].to_vec(), pos: 0 });
+            let at2 = at + gap;
+            pipe.last_at = at2;
+            pipe.chunks.push_back(Chunk { at: at2, data: data[cut..].to_vec(), pos: 0 });
+            split = true;
+        } else {
+            pipe.chunks.push_back(Chunk { at, data: data.to_vec(), pos: 0 });
+        }
         if pipe.chunks.len() > self.max_backlog {
             self.max_backlog = pipe.chunks.len();
         }
@@ -254,6 +280,9 @@ impl Net {
             lines.push(String::from_utf8_lossy(&l[..l.len() - 1]).to_string());
         }
         let (fl, tl) = (pipe.from_label.clone(), pipe.to_label.clone());
+        if split {
+            self.segments_split += 1;
+        }
         if inter {
             self.inter_node_bytes += data.len() as u64;
             self.inter_node_lines += lines.len() as u64;
